@@ -32,7 +32,7 @@ HEADS = {"insert", "remove", "drop", "remove_all", "update", "update_all", "sear
 def main(tier, seed):
     ck = Check("C08", tier, seed)
     b = ck.build_proofs("Prop_C08", extra_targets=["Run.vo"])
-    n = 24 if tier == "quick" else 400
+    n = 48 if tier == "quick" else 400
 
     def worker(z):
         env = dict(os.environ, **impl_env(z), C08_WORK=str(ck.work / "w"), VERIF_REPO=str(REPO))
